@@ -424,7 +424,7 @@ func runC11(args []string) int {
 	cfg.illFormed = 0
 	cfg.maxRecords = 5
 	var pool []*vfile
-	nPool := sizes(o.tier, o.boost, 22, 4000)
+	nPool := sizes(o.tier, o.boost, 22, 300) // every cut position of every file goes through the model: cost grows with size squared
 	for tries := 0; len(pool) < nPool && tries < 60*nPool; tries++ {
 		cfg.maxRecords = 2 + rg.intn(9)
 		s := genStream(rg, &cfg, st)
@@ -435,7 +435,7 @@ func runC11(args []string) int {
 				nData++
 			}
 		}
-		if (len(data) > 190 || (nData < 3 && len(pool)%5 != 0)) && o.tier != "thorough" {
+		if len(data) > map[bool]int{false: 190, true: 500}[o.tier == "thorough"] || (nData < 3 && len(pool)%5 != 0 && o.tier != "thorough") {
 			continue // small, but with data records beyond the file_id message
 		}
 		v, _, _, err := soloDecode(r, w, data, "generated", s, true)
@@ -452,7 +452,7 @@ func runC11(args []string) int {
 	var corpus []*vfile
 	maxCorpus := 260
 	if o.tier == "thorough" {
-		maxCorpus = 2200
+		maxCorpus = 800
 	}
 	for _, p := range corpusFitFiles() {
 		raw, err := os.ReadFile(p)
@@ -507,14 +507,14 @@ func runC11(args []string) int {
 	}
 	// chains of 2-3
 	all := append(append([]*vfile{}, pool...), corpus...)
-	nChains := sizes(o.tier, o.boost, 9, 3000)
+	nChains := sizes(o.tier, o.boost, 9, 120)
 	for i := 0; i < nChains; i++ {
 		n := 2 + rg.intn(2)
 		var fs []*vfile
 		total := 0
 		for len(fs) < n {
 			v := all[rg.intn(len(all))]
-			if total+len(v.data) > 330 && o.tier != "thorough" {
+			if total+len(v.data) > map[bool]int{false: 330, true: 900}[o.tier == "thorough"] {
 				v = pool[rg.intn(len(pool))]
 			}
 			fs = append(fs, v)
